@@ -87,18 +87,22 @@ ErrText(st, v) ==
                    text |-> IF fn.cname = <<>> THEN fn.cmsg.s ELSE IF fn.cmsg.s = <<>> THEN fn.cname
                             ELSE fn.cname \o S_colonSpace \o fn.cmsg.s])
     ELSE
-    LET nm == C!ObjGet(st, v.id, S_name)                                                      \* step 3
-        ns == IF nm.thr # "" THEN nm ELSE IF nm.v.t = "undef" THEN C!Ok(nm.st, StrV(S_Error)) ELSE C!ToStr(nm.st, nm.v)   \* step 4
-    IN  IF ns.thr # "" THEN [und |-> TRUE]
-        ELSE LET mg == C!ObjGet(ns.st, v.id, S_message)                                       \* step 5
-             IN  IF mg.thr # "" THEN [und |-> TRUE]
-                 ELSE IF mg.v.t = "unmodelled" THEN [und |-> FALSE, known |-> FALSE, name |-> ns.v.s, text |-> <<>>]
-                 ELSE LET ms == IF mg.v.t = "undef" THEN C!Ok(mg.st, StrV(<<>>)) ELSE C!ToStr(mg.st, mg.v)    \* step 6
-                      IN  IF ms.thr # "" THEN [und |-> TRUE]
-                          ELSE [und |-> FALSE, known |-> TRUE, name |-> ns.v.s,
-                                text |-> IF ns.v.s = <<>> THEN ms.v.s                       \* step 8
-                                         ELSE IF ms.v.s = <<>> THEN ns.v.s                  \* step 9
-                                         ELSE ns.v.s \o S_colonSpace \o ms.v.s]             \* step 10
+    \* [[Get]] of a data property (own or inherited) and ToString of a primitive: nothing here runs
+    \* script code; an accessor or an object value leaves the modelled fragment
+    LET Get(p) == LET g == C!OM!GetProp(st.H, v.id, p)
+                  IN  IF ~g.has THEN [ok |-> TRUE, v |-> Undef]
+                      ELSE IF g.d.k # "data" THEN [ok |-> FALSE, v |-> Undef]
+                      ELSE [ok |-> g.d.v.t # "obj", v |-> g.d.v]
+        nm == Get(S_name)                                                                   \* step 3
+        mg == Get(S_message)                                                                \* step 5
+    IN  IF ~nm.ok \/ ~mg.ok THEN [und |-> TRUE]
+        ELSE LET ns == IF nm.v.t = "undef" THEN S_Error ELSE C!OPS!ToStringPrim(nm.v)        \* step 4
+             IN  IF mg.v.t = "unmodelled" THEN [und |-> FALSE, known |-> FALSE, name |-> ns, text |-> <<>>]
+                 ELSE LET ms == IF mg.v.t = "undef" THEN <<>> ELSE C!OPS!ToStringPrim(mg.v)   \* step 6-7
+                      IN  [und |-> FALSE, known |-> TRUE, name |-> ns,
+                           text |-> IF ns = <<>> THEN ms                                    \* step 8
+                                    ELSE IF ms = <<>> THEN ns                               \* step 9
+                                    ELSE ns \o S_colonSpace \o ms]                          \* step 10
 
 -----------------------------------------------------------------------------
 (* the initial state of a C19 run *)
